@@ -24,13 +24,13 @@ import (
 type c08Plan struct {
 	N        int   `json:"n"`
 	T        int   `json:"t"`
-	Second   bool  `json:"second"`   // a second round interleaved on the same board
-	Decline  bool  `json:"decline"`  // participant 1 declines the second round
-	Tape     []int `json:"tape"`     // production of the log: polls, answers, faults
-	Faults   int   `json:"faults"`   // how many junk / duplicate / badly signed messages may be injected
-	Batch    bool  `json:"batch"`    // sign a batch in the first round at the end
-	Prefix   int   `json:"prefix"`   // R1: prefix length (mod)
-	NodeA    int   `json:"node_a"`   // R1: the two identities compared on the prefix
+	Second   bool  `json:"second"`  // a second round interleaved on the same board
+	Decline  bool  `json:"decline"` // participant 1 declines the second round
+	Tape     []int `json:"tape"`    // production of the log: polls, answers, faults
+	Faults   int   `json:"faults"`  // how many junk / duplicate / badly signed messages may be injected
+	Batch    bool  `json:"batch"`   // sign a batch in the first round at the end
+	Prefix   int   `json:"prefix"`  // R1: prefix length (mod)
+	NodeA    int   `json:"node_a"`  // R1: the two identities compared on the prefix
 	NodeB    int   `json:"node_b"`
 	Chunks   []int `json:"chunks"`   // poll batching of the rebuilt node
 	Restarts []int `json:"restarts"` // the rebuilt node is restarted after these chunks
